@@ -429,7 +429,7 @@ def summarise(prop, tier, seed, fres, jobs, by_id, wall, extra_bounded=None):
         path = os.path.join(ROOT, 'replays', prop, name + '.json')
         doc = {'property': prop, 'function': '%s:%s' % fr['key'], 'failed_obligation': '/'.join(g),
                'obligation_id': j['id'], 'info': j['info'], 'solver': o['solver'], 'model': o['model'],
-               'replay': rep, 'smt2': j['smt2'] if len(j['smt2']) < 20000 else j['smt2'][:20000] + '...',
+               'replay': rep, 'smt2': j['smt2'] if len(j['smt2']) < 400000 else j['smt2'][:400000] + '...',
                'rerun': 'cd /verif && python3-vt -m vp.check %s --function %s' % (prop, fr['key'][1])}
         with open(path, 'w') as f:
             json.dump(doc, f, indent=1, default=str)
